@@ -1,7 +1,7 @@
 (** Proofs about the period model: spans, sizes, containment, intersection, tiling,
     offsets, reference periods. *)
 From Coq Require Import ZArith List Bool Lia ZifyBool.
-From Verif Require Import Base Cal Tables Period CalProofs.
+From Verif Require Import Base Cal Tables Period PeriodSpec CalProofs.
 Import ListNotations.
 Ltac Zify.zify_post_hook ::= Z.to_euclidean_division_equations.
 Open Scope Z_scope.
@@ -70,23 +70,6 @@ Proof.
 Qed.
 
 (** * The set of days a period denotes: [first_ord p, last_ord p] *)
-
-Definition end_excl (p : period) : date :=
-  let '(u, s, n) := p in
-  match u with
-  | Year => add_years s n
-  | Month => add_months s n
-  | Week => add_days s (7 * n)
-  | Day | Weekday => add_days s n
-  | Eternity => s
-  end.
-
-Definition first_ord (p : period) : Z := ord (p_start p).
-Definition last_ord (p : period) : Z := ord (end_excl p) - 1.
-
-(* well-formed: a dated unit, a valid start, a positive size *)
-Definition wf (p : period) : Prop :=
-  p_unit p <> Eternity /\ valid (p_start p) /\ 1 <= p_size p.
 
 Lemma end_excl_later p : wf p -> valid (end_excl p) /\ ord (p_start p) < ord (end_excl p).
 Proof.
@@ -259,9 +242,6 @@ Proof.
     repeat split; try congruence; try assumption; lia. }
 Qed.
 
-Definition opt_ord (o : option date) (dflt : Z) : Z := match o with Some d => ord d | None => dflt end.
-Definition opt_valid (o : option date) : Prop := match o with Some d => valid d | None => True end.
-
 (** The result of [intersection] denotes exactly [days p] intersected with [a, b]
     ([None] = unbounded on that side); it is [None] iff that set is empty. *)
 Theorem intersection_spec p a b :
@@ -287,14 +267,6 @@ Proof.
 Qed.
 
 (** * Tiling by sub-periods *)
-
-(** [tiles l lo hi]: the periods of [l], in order, are non-empty, each starts the day
-    after the previous one ends, the first starts at [lo], the last ends at [hi]. *)
-Fixpoint tiles (l : list period) (lo hi : Z) : Prop :=
-  match l with
-  | [] => lo = hi + 1
-  | q :: l' => first_ord q = lo /\ lo <= last_ord q /\ tiles l' (last_ord q + 1) hi
-  end.
 
 Lemma tiles_le l : forall lo hi, tiles l lo hi -> lo <= hi + 1.
 Proof.
@@ -438,126 +410,122 @@ Proof.
     repeat split; try lia; [destruct Hu as [[[-> | ->] _]|[-> _]]; congruence | apply Vi; lia].
 Qed.
 
-(** alignment of a start date to a unit, and the calendar families *)
-Definition aligned (u : unit_t) (s : date) : Prop :=
-  let '(_, m, d) := s in
-  match u with
-  | Year => m = 1 /\ d = 1
-  | Month => d = 1
-  | Week => isoweekday s = 1
-  | _ => True
-  end.
-
-Definition same_family (pu u : unit_t) : bool :=
-  match pu, u with
-  | Year, Year | Year, Month | Year, Day | Month, Month | Month, Day | Day, Day
-  | Week, Week | Week, Weekday | Weekday, Weekday => true
-  | _, _ => false
-  end.
-
-(** number of [u]-pieces of [p] (same family) *)
-Definition count_in (p : period) (u : unit_t) : Z :=
-  match p_unit p, u with
-  | Year, Month => 12 * p_size p
-  | _, Day | _, Weekday => days p
-  | _, _ => p_size p
-  end.
 
 Lemma add_days_0 s : valid s -> add_days s 0 = s.
 Proof. intros H. unfold add_days. rewrite Z.add_0_r. apply of_ord_ord. assumption. Qed.
 
-Lemma map_ext_in' {A B} (f g : A -> B) l : (forall x, In x l -> f x = g x) -> map f l = map g l.
-Proof. apply map_ext_in. Qed.
+Lemma zrange_map_length {B} (f : Z -> B) n : 0 <= n -> Z.of_nat (length (map f (zrange n))) = n.
+Proof. intros. unfold zrange. rewrite !map_length, seq_length. lia. Qed.
+
+(** the model's generators produce exactly [mk_days] / [mk_months] lists *)
+Lemma gen_days_ok u s n : u = Day \/ u = Weekday ->
+  mapM (fun i => offset (u, s, 1) i (Some u)) (zrange n) = Ok (map (mk_days u s 1) (zrange n)).
+Proof.
+  intros Hu. apply mapM_ok. intros i _. unfold mk_days. rewrite Z.mul_1_l.
+  destruct Hu as [-> | ->]; reflexivity.
+Qed.
+
+Lemma gen_weeks_ok s n :
+  mapM (fun i => offset (Week, s, 1) i (Some Week)) (zrange n) = Ok (map (mk_days Week s 7) (zrange n)).
+Proof. apply mapM_ok. intros i _. reflexivity. Qed.
+
+Lemma gen_months_ok s n :
+  mapM (fun i => offset (Month, s, 1) i (Some Month)) (zrange n) = Ok (map (mk_months Month s 1) (zrange n)).
+Proof. apply mapM_ok. intros i _. unfold mk_months. rewrite Z.mul_1_l. reflexivity. Qed.
+
+Lemma gen_years_ok s n :
+  mapM (fun i => offset (Year, s, 1) i (Some Year)) (zrange n) = Ok (map (mk_months Year s 12) (zrange n)).
+Proof. apply mapM_ok. intros i _. reflexivity. Qed.
+
+Definition pieces_ok (p : period) (u : unit_t) (l : list period) : Prop :=
+  tiles l (first_ord p) (last_ord p)
+  /\ Forall (fun q => p_unit q = u /\ p_size q = 1 /\ wf q) l
+  /\ Z.of_nat (length l) = count_in p u.
+
+(* day / weekday pieces of any well-formed period *)
+Lemma day_pieces_ok p u : wf p -> u = Day \/ u = Weekday ->
+  pieces_ok p u (map (mk_days u (p_start p) 1) (zrange (days p))).
+Proof.
+  intros Hwf Hu. destruct (days_spec p Hwf) as [Hd Hd1].
+  destruct (days_pieces u 1 (p_start p) (days p)) as [T F];
+    [left; split; [tauto|reflexivity] | apply Hwf | lia |].
+  unfold pieces_ok. split; [|split].
+  - unfold first_ord in *. replace (last_ord p) with (ord (p_start p) + 1 * days p - 1) by lia. exact T.
+  - exact F.
+  - rewrite zrange_map_length by lia. unfold count_in. destruct Hu as [-> | ->]; destruct (p_unit p); reflexivity.
+Qed.
+
+Lemma subperiods_unfold p u : unit_weight (p_unit p) <? unit_weight u = false ->
+  subperiods p u =
+    let gen (base : res period) (count : res Z) : res (list period) :=
+      bind base (fun b => bind count (fun n => mapM (fun i => offset b i (Some u)) (zrange n))) in
+    match u with
+    | Year => gen (this_year p) (Ok (p_size p))
+    | Month => gen (first_month p) (size_in_months p)
+    | Day => gen (first_day p) (size_in_days p)
+    | Week => gen (first_week p) (size_in_weeks p)
+    | Weekday => gen (first_weekday p) (size_in_weekdays p)
+    | Eternity => Err EValue
+    end.
+Proof. intros H. unfold subperiods. rewrite H. reflexivity. Qed.
 
 Theorem subperiods_tile p u :
   wf p -> same_family (p_unit p) u = true -> aligned u (p_start p) ->
-  exists l, subperiods p u = Ok l
-    /\ tiles l (first_ord p) (last_ord p)
-    /\ Forall (fun q => p_unit q = u /\ p_size q = 1 /\ wf q) l
-    /\ Z.of_nat (length l) = count_in p u.
+  exists l, subperiods p u = Ok l /\ pieces_ok p u l.
 Proof.
-  intros Hwf Hfam Hal. destruct (days_spec p Hwf) as [Hd Hd1].
-  pose proof (size_in_days_spec p Hwf) as Hsd.
-  destruct p as [[pu [[y m] d]] n]. destruct Hwf as [Hu [Hv Hn]].
-  unfold p_unit, p_start, p_size in *; cbn [fst snd] in *.
-  pose proof Hv as Hv'. apply valid_iff in Hv'.
-  unfold subperiods, p_unit, p_size; cbn [fst snd].
-  assert (Hw : unit_weight pu <? unit_weight u = false) by (destruct pu, u; try discriminate; reflexivity).
-  rewrite Hw. unfold count_in, first_ord, last_ord, p_unit, p_start, p_size; cbn [fst snd].
-  destruct pu, u; try discriminate Hfam; cbn [aligned] in Hal;
-    cbn [this_year first_month first_day first_week first_weekday first_of_or_fail instant_first_of
-         bind p_start fst snd size_in_months size_in_weeks p_unit p_size end_excl];
-    try rewrite Hsd; try rewrite (size_in_weekdays_spec _ (conj Hu (conj Hv Hn)) ltac:(cbn; auto));
-    cbn [bind].
-  (* Weekday / Weekday *)
-  - destruct (days_pieces Weekday 1 (y, m, d) (days (Weekday, (y, m, d), n)) ltac:(auto) Hv ltac:(lia)) as [T F].
-    exists (map (mk_days Weekday (y, m, d) 1) (zrange (days (Weekday, (y, m, d), n)))).
-    split; [apply mapM_ok; intros i _; unfold mk_days; cbn; Show; repeat f_equal; lia|].
-    split; [|split; [assumption|rewrite map_length; unfold zrange; rewrite map_length, seq_length; lia]].
-    unfold first_ord, last_ord, p_start in Hd; cbn [fst snd end_excl] in Hd.
-    replace (ord (add_days (y, m, d) n) - 1) with (ord (y, m, d) + 1 * days (Weekday, (y, m, d), n) - 1) by lia.
-    exact T.
-  (* Week / Weekday *)
-  - destruct (days_pieces Weekday 1 (y, m, d) (days (Week, (y, m, d), n)) ltac:(auto) Hv ltac:(lia)) as [T F].
-    exists (map (mk_days Weekday (y, m, d) 1) (zrange (days (Week, (y, m, d), n)))).
-    split; [apply mapM_ok; intros i _; unfold mk_days; cbn; repeat f_equal; lia|].
-    split; [|split; [assumption|rewrite map_length; unfold zrange; rewrite map_length, seq_length; lia]].
-    unfold first_ord, last_ord, p_start in Hd; cbn [fst snd end_excl] in Hd.
-    replace (ord (add_days (y, m, d) (7 * n)) - 1) with (ord (y, m, d) + 1 * days (Week, (y, m, d), n) - 1) by lia.
-    exact T.
-  (* Week / Week *)
-  - assert (Es : start_of_week (y, m, d) = (y, m, d)).
-    { unfold start_of_week. rewrite Hal. apply add_days_0. assumption. }
-    rewrite Es.
-    destruct (days_pieces Week 7 (y, m, d) n ltac:(auto) Hv ltac:(lia)) as [T F].
-    exists (map (mk_days Week (y, m, d) 7) (zrange n)).
-    split; [apply mapM_ok; intros i _; unfold mk_days; cbn; repeat f_equal; lia|].
-    split; [|split; [assumption|rewrite map_length; unfold zrange; rewrite map_length, seq_length; lia]].
-    destruct (add_days_ord (y, m, d) (7 * n) Hv ltac:(pose proof (ord_pos _ Hv); lia)) as [_ E].
-    rewrite E. exact T.
-  (* Day / Day *)
-  - destruct (days_pieces Day 1 (y, m, d) (days (Day, (y, m, d), n)) ltac:(auto) Hv ltac:(lia)) as [T F].
-    exists (map (mk_days Day (y, m, d) 1) (zrange (days (Day, (y, m, d), n)))).
-    split; [apply mapM_ok; intros i _; unfold mk_days; cbn; repeat f_equal; lia|].
-    split; [|split; [assumption|rewrite map_length; unfold zrange; rewrite map_length, seq_length; lia]].
-    unfold first_ord, last_ord, p_start in Hd; cbn [fst snd end_excl] in Hd.
-    replace (ord (add_days (y, m, d) n) - 1) with (ord (y, m, d) + 1 * days (Day, (y, m, d), n) - 1) by lia.
-    exact T.
-  (* Month / Day *)
-  - destruct (days_pieces Day 1 (y, m, d) (days (Month, (y, m, d), n)) ltac:(auto) Hv ltac:(lia)) as [T F].
-    exists (map (mk_days Day (y, m, d) 1) (zrange (days (Month, (y, m, d), n)))).
-    split; [apply mapM_ok; intros i _; unfold mk_days; cbn; repeat f_equal; lia|].
-    split; [|split; [assumption|rewrite map_length; unfold zrange; rewrite map_length, seq_length; lia]].
-    unfold first_ord, last_ord, p_start in Hd; cbn [fst snd end_excl] in Hd.
-    replace (ord (add_months (y, m, d) n) - 1) with (ord (y, m, d) + 1 * days (Month, (y, m, d), n) - 1) by lia.
-    exact T.
-  (* Month / Month *)
-  - subst d.
-    destruct (months_pieces Month 1 y m n ltac:(auto) Hv ltac:(lia)) as [T F].
-    exists (map (mk_months Month (y, m, 1) 1) (zrange n)).
-    split; [apply mapM_ok; intros i _; unfold mk_months; cbn; repeat f_equal; lia|].
-    split; [|split; [assumption|rewrite map_length; unfold zrange; rewrite map_length, seq_length; lia]].
-    replace (1 * n) with n in T by lia. exact T.
-  (* Year / Day *)
-  - destruct (days_pieces Day 1 (y, m, d) (days (Year, (y, m, d), n)) ltac:(auto) Hv ltac:(lia)) as [T F].
-    exists (map (mk_days Day (y, m, d) 1) (zrange (days (Year, (y, m, d), n)))).
-    split; [apply mapM_ok; intros i _; unfold mk_days; cbn; repeat f_equal; lia|].
-    split; [|split; [assumption|rewrite map_length; unfold zrange; rewrite map_length, seq_length; lia]].
-    unfold first_ord, last_ord, p_start in Hd; cbn [fst snd end_excl] in Hd.
-    replace (ord (add_years (y, m, d) n) - 1) with (ord (y, m, d) + 1 * days (Year, (y, m, d), n) - 1) by lia.
-    exact T.
-  (* Year / Month *)
-  - subst d.
-    destruct (months_pieces Month 1 y m (n * 12) ltac:(auto) Hv ltac:(lia)) as [T F].
-    exists (map (mk_months Month (y, m, 1) 1) (zrange (n * 12))).
-    split; [apply mapM_ok; intros i _; unfold mk_months; cbn; repeat f_equal; lia|].
-    split; [|split; [assumption|rewrite map_length; unfold zrange; rewrite map_length, seq_length; lia]].
-    unfold add_years. replace (1 * (n * 12)) with (12 * n) in T by lia. exact T.
-  (* Year / Year *)
-  - destruct Hal as [-> ->].
-    destruct (months_pieces Year 12 y 1 n ltac:(auto) Hv ltac:(lia)) as [T F].
+  intros Hwf Hfam Hal.
+  assert (Hw : unit_weight (p_unit p) <? unit_weight u = false)
+    by (destruct (p_unit p), u; try discriminate; reflexivity).
+  rewrite (subperiods_unfold p u Hw). cbv zeta.
+  destruct u; try (destruct (p_unit p); discriminate).
+  - (* Weekday *)
+    exists (map (mk_days Weekday (p_start p) 1) (zrange (days p))).
+    split; [|apply day_pieces_ok; auto].
+    rewrite size_in_weekdays_spec; [|assumption|destruct (p_unit p); try discriminate; auto].
+    unfold first_weekday. cbn [bind]. apply gen_days_ok. auto.
+  - (* Week *)
+    destruct p as [[pu s] n]. unfold p_unit, p_start in *; cbn [fst snd] in *.
+    destruct pu; try discriminate. destruct Hwf as [_ [Hv Hn]]. unfold p_start, p_size in *; cbn [fst snd] in *.
+    assert (Es : start_of_week s = s).
+    { unfold start_of_week. destruct s as [[y m] d]. cbn [aligned] in Hal. rewrite Hal. apply add_days_0. assumption. }
+    exists (map (mk_days Week s 7) (zrange n)).
+    split.
+    + unfold first_week, first_of_or_fail, instant_first_of, p_start; cbn [fst snd].
+      destruct s as [[y m] d]. cbn [bind]. rewrite Es. cbn [bind size_in_weeks]. apply gen_weeks_ok.
+    + destruct (days_pieces Week 7 s n) as [T F]; [right; auto | assumption | lia |].
+      unfold pieces_ok, first_ord, last_ord, p_start, count_in, p_unit, p_size; cbn [fst snd end_excl].
+      destruct (add_days_ord s (7 * n) Hv ltac:(pose proof (ord_pos _ Hv); lia)) as [_ E].
+      rewrite E. split; [exact T|]. split; [exact F|]. apply zrange_map_length. lia.
+  - (* Day *)
+    exists (map (mk_days Day (p_start p) 1) (zrange (days p))).
+    split; [|apply day_pieces_ok; auto].
+    rewrite size_in_days_spec by assumption.
+    unfold first_day. cbn [bind]. apply gen_days_ok. auto.
+  - (* Month *)
+    destruct p as [[pu [[y m] d]] n]. unfold p_unit, p_start in *; cbn [fst snd aligned] in *. subst d.
+    destruct Hwf as [_ [Hv Hn]]. unfold p_start, p_size in *; cbn [fst snd] in *.
+    assert (Hpu : (pu = Month /\ months_of pu n = n) \/ (pu = Year /\ months_of pu n = 12 * n))
+      by (destruct pu; try discriminate; auto).
+    exists (map (mk_months Month (y, m, 1) 1) (zrange (months_of pu n))).
+    split.
+    + unfold first_month, first_of_or_fail, instant_first_of, p_start; cbn [fst snd bind].
+      destruct Hpu as [[-> E]|[-> E]]; rewrite E; unfold size_in_months, p_unit, p_size; cbn [fst snd bind];
+        [|replace (n * 12) with (12 * n) by lia];
+      apply gen_months_ok.
+    + destruct (months_pieces Month 1 y m (months_of pu n)) as [T F]; [auto | assumption | destruct Hpu as [[_ ->]|[_ ->]]; lia |].
+      unfold pieces_ok, first_ord, last_ord, p_start, count_in, p_unit, p_size; cbn [fst snd].
+      rewrite Z.mul_1_l in T.
+      rewrite zrange_map_length by (destruct Hpu as [[_ ->]|[_ ->]]; lia).
+      destruct Hpu as [[-> E]|[-> E]]; rewrite E in *; cbn [end_excl]; unfold add_years;
+        (split; [exact T|]); (split; [exact F|]); reflexivity.
+  - (* Year *)
+    destruct p as [[pu [[y m] d]] n]. unfold p_unit, p_start in *; cbn [fst snd aligned] in *.
+    destruct Hal as [-> ->]. destruct pu; try discriminate.
+    destruct Hwf as [_ [Hv Hn]]. unfold p_start, p_size in *; cbn [fst snd] in *.
     exists (map (mk_months Year (y, 1, 1) 12) (zrange n)).
-    split; [apply mapM_ok; intros i _; unfold mk_months; cbn; repeat f_equal; lia|].
-    split; [|split; [assumption|rewrite map_length; unfold zrange; rewrite map_length, seq_length; lia]].
-    unfold add_years. exact T.
+    split.
+    + unfold this_year, first_of_or_fail, instant_first_of, p_start, p_size; cbn [fst snd bind]. apply gen_years_ok.
+    + destruct (months_pieces Year 12 y 1 n) as [T F]; [auto | assumption | lia |].
+      unfold pieces_ok, first_ord, last_ord, p_start, count_in, p_unit, p_size; cbn [fst snd end_excl].
+      unfold add_years. split; [exact T|]. split; [exact F|]. apply zrange_map_length. lia.
 Qed.
